@@ -1210,7 +1210,7 @@ void exec_op(const Op &op, bool in_cb, int cb_slot) {
         ApiScope a("tb", m);
         int rc = a.done(m_mod_set_tokenbucket(h, (uint32_t)std::max(0L, op.arg(1)), (uint64_t)std::max(0L, op.arg(2))));
         sim::tr("tb", m, op.arg(1), rc);
-        if (rc == 0 || op.arg(1) > 0) {
+        if (rc == 0 || (rc == -EEXIST && op.arg(1) > 0)) {
             // (the new bucket is in force even when registering its refill timer was refused by the old bucket)
             s.tb_rate = (uint32_t)std::max(0L, op.arg(1)); s.tb_burst = (uint64_t)std::max(0L, op.arg(2));
             s.tb_set_time = R->now; s.tb_set_gseq = R->gseq; s.tb_charged_max = 0; s.tb_success_times.clear(); s.tb_refusal_armed = false;
